@@ -118,7 +118,7 @@ class ParseToken:
         return token
 
     def __lt__(self, other):
-        return self.start < other.start
+        return (self.start, -self.end) < (other.start, -other.end)
 
     def __repr__(self):
         pattern = '<ParseToken span=({},{}) parse_span=({},{}) cls={} children={}>'
